@@ -129,9 +129,27 @@ PY_RECURSION = sorted(["data[j].child._check(data[j+1].child._firstbucket)",
                        "data[-1].child._check(nextbucket)"])
 
 
+class Seq(object):
+    def __init__(self, segs):
+        self.segs = segs
+
+    def __repr__(self):
+        return "<%s>" % " ++ ".join(
+            ("%s for j%+d, %+d fewer" % (g[1], g[2], -g[3])) if g[0] == "rng" else g[1] for g in self.segs)
+
+    def length(self):
+        b = sum(g[3] if g[0] == "rng" else 1 for g in self.segs)
+        k = sum(1 for g in self.segs if g[0] == "rng")
+        if k == 1:
+            return "n" if b == 0 else "n%+d" % b
+        return None
+
+
 class _Canon(object):
-    def __init__(self, fn):
+    def __init__(self, fn, members=None):
         self.fn = fn
+        self.members = members or {}
+        self.depth = 0
         self.env = {}
         self.asserts = []
         self.calls = []
@@ -168,6 +186,8 @@ class _Canon(object):
             v = self.env.get(e.id)
             if isinstance(v, tuple) and v[0] == "idx":
                 return "j" if v[1] == 0 else "j%+d" % v[1]
+            if v == ("last",):
+                return "-1"
         if isinstance(e, ast.BinOp) and isinstance(e.op, (ast.Add, ast.Sub)) and \
                 isinstance(e.right, ast.Constant) and isinstance(e.left, ast.Name):
             v = self.env.get(e.left.id)
@@ -181,7 +201,33 @@ class _Canon(object):
             v = self.env.get(e.id)
             if isinstance(v, str):
                 return v
+            if isinstance(v, Seq):
+                return repr(v)
+            if isinstance(v, tuple) and v and v[0] == "idx" and self.members:
+                return "j" if v[1] == 0 else "j%+d" % v[1]
+            if v == ("last",):
+                return "j_last"
             return e.id
+        if isinstance(e, ast.Subscript) and not isinstance(e.slice, ast.Slice) and self.members:
+            q = self.val(e.value)
+            if q is not None:
+                return self.elem(q, self.idx(e.slice))
+        if isinstance(e, ast.Call) and isinstance(e.func, ast.Name) and e.func.id == "len" and len(e.args) == 1 \
+                and self.members:
+            q = self.val(e.args[0])
+            if q is not None and q.length() is not None:
+                return q.length()
+        if isinstance(e, ast.BinOp) and isinstance(e.op, (ast.Add, ast.Sub)) and isinstance(e.right, ast.Constant) \
+                and isinstance(e.right.value, int) and self.members:
+            l = self.c(e.left)
+            m = re.match(r"^n([+-]\d+)?$", l)
+            if m:
+                k = int(m.group(1) or 0) + (e.right.value if isinstance(e.op, ast.Add) else -e.right.value)
+                return "n" if k == 0 else "n%+d" % k
+        if isinstance(e, ast.IfExp) and self.members:
+            d = self.decide(e.test)
+            if d is not None:
+                return self.c(e.body if d else e.orelse)
         if isinstance(e, ast.Attribute):
             b = self.c(e.value)
             s = "%s.%s" % (b, e.attr)
@@ -202,81 +248,277 @@ class _Canon(object):
             return repr(e.value)
         return pyfront.unparse(e)
 
-    def bind_loop(self, target, it):
+    # ---- sequences of nodes ------------------------------------------------------
+    # A list derived from the node's items is a Seq: segments ("rng", template,
+    # off, b) - the elements template[j+off] for j in 0 .. n+b-1, n = len(data) -
+    # and ("one", text).  `[item.child for item in data]`, slices, append and
+    # zip / enumerate over them are followed, so the assertion a loop makes is
+    # printed as a statement about data[j], data[j+1], data[-1].
+
+    def val(self, e):
+        """the Seq an expression denotes, or None"""
+        if isinstance(e, ast.Name):
+            v = self.env.get(e.id)
+            if isinstance(v, Seq):
+                return v
+            if v == "data":
+                return Seq([("rng", "data[@]", 0, 0)])
+            return None
+        if isinstance(e, ast.Attribute) and self.c(e) == "data":
+            return Seq([("rng", "data[@]", 0, 0)])
+        if isinstance(e, ast.Call) and isinstance(e.func, ast.Name) and e.func.id in ("list", "tuple") \
+                and len(e.args) == 1:
+            return self.val(e.args[0])
+        if isinstance(e, ast.ListComp) and len(e.generators) == 1 and not e.generators[0].ifs and \
+                isinstance(e.generators[0].target, ast.Name):
+            src = self.val(e.generators[0].iter)
+            if src is not None and len(src.segs) == 1 and src.segs[0][0] == "rng":
+                saved = dict(self.env)
+                self.env[e.generators[0].target.id] = src.segs[0][1]
+                t = self.c(e.elt)
+                self.env = saved
+                if "@" in t:
+                    return Seq([("rng", t, src.segs[0][2], src.segs[0][3])])
+            return None
+        if isinstance(e, ast.Subscript) and isinstance(e.slice, ast.Slice) and e.slice.step is None:
+            src = self.val(e.value)
+            if src is None:
+                return None
+            lo, hi = e.slice.lower, e.slice.upper
+            segs = list(src.segs)
+            if lo is not None:
+                if not (isinstance(lo, ast.Constant) and isinstance(lo.value, int) and lo.value >= 0
+                        and segs[0][0] == "rng"):
+                    return None
+                k, t, off, b = segs[0]
+                segs[0] = (k, t, off + lo.value, b - lo.value)
+            if hi is not None:
+                if not (isinstance(hi, ast.UnaryOp) and isinstance(hi.op, ast.USub) and
+                        isinstance(hi.operand, ast.Constant) and hi.operand.value == 1):
+                    return None
+                if segs[-1][0] == "one":
+                    segs.pop()
+                else:
+                    k, t, off, b = segs[-1]
+                    segs[-1] = (k, t, off, b - 1)
+            return Seq(segs)
+        if isinstance(e, ast.BinOp) and isinstance(e.op, ast.Add) and isinstance(e.right, ast.List):
+            src = self.val(e.left)
+            if src is not None:
+                return Seq(list(src.segs) + [("one", self.c(x)) for x in e.right.elts])
+        return None
+
+    @staticmethod
+    def _at(tmpl, off, idxtext):
+        """template element at a symbolic / constant position"""
+        m = re.match(r"^j([+-]\d+)?$", idxtext)
+        if m:
+            k = off + int(m.group(1) or 0)
+            return tmpl.replace("@", "j" if k == 0 else "j%+d" % k)
+        return tmpl.replace("@", str(int(idxtext) + off))
+
+    def elem(self, seq, idxtext):
+        first, last_ = seq.segs[0], seq.segs[-1]
+        if re.match(r"^j([+-]\d+)?$", idxtext) or re.match(r"^\d+$", idxtext):
+            if first[0] == "rng":
+                return self._at(first[1], first[2], idxtext)
+        if idxtext == "-1":
+            if last_[0] == "one":
+                return last_[1]
+            if last_[2] + last_[3] == 0:
+                return last_[1].replace("@", "-1")
+        return "%s[%s]" % (seq, idxtext)
+
+    LAST_TESTS = {"j == n-1": True, "n-1 == j": True, "j != n-1": False, "j < n-1": False, "n-1 > j": False,
+                  "j >= n-1": True, "-1 == n-1": True, "-1 != n-1": False, "-1 < n-1": False, "-1 >= n-1": True}
+
+    def decide(self, test):
+        """truth of a test on the position in a loop that was split into the
+        cases 'inner' (j < n-1) and 'last' (j == n-1)"""
+        pos = getattr(self, "pos", "any")
+        if isinstance(test, ast.UnaryOp) and isinstance(test.op, ast.Not):
+            d = self.decide(test.operand)
+            return None if d is None else not d
+        if pos == "any" or not isinstance(test, ast.Compare):
+            return None
+        t = self.c(test).replace("j_last", "-1")
+        if t in self.LAST_TESTS:
+            return self.LAST_TESTS[t] == (pos == "last")
+        return None
+
+    def _has_last_test(self, body):
+        saved = getattr(self, "pos", "any")
+        self.pos = "inner"
+        try:
+            return any(isinstance(x, ast.Compare) and self.decide(x) is not None
+                       for b in body for x in ast.walk(b))
+        finally:
+            self.pos = saved
+
+    def loop_cases(self, st):
+        """[(bindings, position)] - one entry per kind of iteration"""
+        target, it = st.target, st.iter
         if isinstance(it, ast.Name) and isinstance(self.env.get(it.id), tuple) and self.env[it.id][0] == "expr":
             it = self.env[it.id][1]
-        src = self.c(it) if not isinstance(it, ast.Call) else None
+
+        def names(t):
+            return [x.id for x in t.elts] if isinstance(t, ast.Tuple) and all(
+                isinstance(x, ast.Name) for x in t.elts) else None
+
+        def split(any_case, last_case):
+            saved = dict(self.env)
+            self.env.update(any_case)
+            sp = self._has_last_test(st.body)
+            self.env = saved
+            return [(any_case, "inner"), (last_case, "last")] if sp else [(any_case, "any")]
         if isinstance(it, ast.Call):
             f = pyfront.unparse(it.func)
-            if f == "range":
+            if f == "range" and isinstance(target, ast.Name):
                 # range(len(data) - 1) / range(len(data)): an index over data
-                if isinstance(target, ast.Name):
-                    self.env[target.id] = ("idx", 0)
-                    return
-            if f == "zip" and isinstance(target, ast.Tuple):
-                for t, a in zip(target.elts, it.args):
-                    if isinstance(t, ast.Name):
-                        off = 0
-                        base = a
-                        if isinstance(a, ast.Subscript) and isinstance(a.slice, ast.Slice) and \
-                                a.slice.lower is not None and isinstance(a.slice.lower, ast.Constant):
-                            off = a.slice.lower.value
-                            base = a.value
-                        self.env[t.id] = "%s[%s]" % (self.c(base), "j" if off == 0 else "j%+d" % off)
-                return
-            if f == "enumerate" and isinstance(target, ast.Tuple) and len(target.elts) == 2:
-                self.env[target.elts[0].id] = ("idx", 0)
-                self.env[target.elts[1].id] = "%s[j]" % self.c(it.args[0])
-                return
+                full = len(it.args) == 1 and self.c(it.args[0]) == "n"
+                if full:
+                    return split({target.id: ("idx", 0)}, {target.id: ("last",)})
+                return [({target.id: ("idx", 0)}, "any")]
+            if f == "enumerate" and names(target) and len(target.elts) == 2 and it.args:
+                seq = self.val(it.args[0])
+                i_, x_ = names(target)
+                if seq is None:
+                    return [({i_: ("idx", 0), x_: "%s[j]" % self.c(it.args[0])}, "any")]
+                if len(seq.segs) == 1 and seq.segs[0][3] == 0:
+                    return split({i_: ("idx", 0), x_: self.elem(seq, "j")},
+                                 {i_: ("last",), x_: self.elem(seq, "-1")})
+                return [({i_: ("idx", 0), x_: self.elem(seq, "j")}, "any")]
+            if f == "zip" and names(target) and len(target.elts) == len(it.args):
+                seqs = [self.val(a) for a in it.args]
+                if any(q is None for q in seqs):
+                    raise AnalysisError("_check: zip over %s" % pyfront.unparse(it)[:60])
+                if all(len(q.segs) == 1 for q in seqs):
+                    return [({nm: self.elem(q, "j") for nm, q in zip(names(target), seqs)}, "any")]
+                # [rng of n+b] zipped with [rng of n+b-1, one]: the last pair is apart
+                lens = []
+                for q in seqs:
+                    if len(q.segs) == 1 and q.segs[0][0] == "rng":
+                        lens.append(q.segs[0][3])
+                    elif len(q.segs) == 2 and q.segs[0][0] == "rng" and q.segs[1][0] == "one":
+                        lens.append(q.segs[0][3] + 1)
+                    else:
+                        raise AnalysisError("_check: zip over %s" % pyfront.unparse(it)[:60])
+                if len(set(lens)) != 1:
+                    raise AnalysisError("_check: zip of sequences of different lengths %s" % pyfront.unparse(it)[:60])
+                inner = {nm: self.elem(q, "j") for nm, q in zip(names(target), seqs)}
+                last_ = {nm: self.elem(q, "-1") for nm, q in zip(names(target), seqs)}
+                return [(inner, "inner"), (last_, "last")]
             raise AnalysisError("_check: loop over %s" % pyfront.unparse(it)[:40])
         if isinstance(target, ast.Name):
-            if isinstance(it, ast.Subscript) and isinstance(it.slice, ast.Slice):
-                lo = it.slice.lower.value if isinstance(it.slice.lower, ast.Constant) else 0
-                self.env[target.id] = "%s[%s]" % (self.c(it.value), "j" if lo == 0 else "j%+d" % lo)
-            else:
-                self.env[target.id] = "%s[j]" % src
+            seq = self.val(it)
+            if seq is not None:
+                if len(seq.segs) == 1:
+                    return [({target.id: self.elem(seq, "j")}, "any")]
+                if len(seq.segs) == 2 and seq.segs[1][0] == "one":
+                    return [({target.id: self.elem(seq, "j")}, "inner"), ({target.id: seq.segs[1][1]}, "last")]
+                raise AnalysisError("_check: loop over %s" % pyfront.unparse(it)[:40])
+            return [({target.id: "%s[j]" % self.c(it)}, "any")]
+        raise AnalysisError("_check: loop over %s" % pyfront.unparse(it)[:40])
+
+    def note_calls(self, node):
+        for c in ast.walk(node):
+            if isinstance(c, ast.Call):
+                fn = pyfront.unparse(c.func)
+                if (fn in self.assert_names or self.env.get(fn) == "self._assert") and c.args:
+                    txt = self.c(c.args[0])
+                    mine = self._terms(c.args[0])
+                    shared = set()
+                    for g in getattr(self, "guards", []):
+                        shared |= (g & mine)
+                    if shared:
+                        txt = "%s or not asserted at all, depending on %s" % (txt, ", ".join(sorted(shared)))
+                    self.asserts.append((txt, c.lineno))
+                elif isinstance(c.func, ast.Attribute) and c.func.attr == "_check":
+                    self.calls.append(self.c(c))
+
+    def helper(self, call):
+        """self.<method>(..) of the node's class that is part of the checker"""
+        f = call.func
+        if isinstance(f, ast.Attribute) and isinstance(f.value, ast.Name) and f.value.id == "self" and \
+                f.attr in self.members and f.attr not in ("_assert", "_check") and not call.keywords and \
+                isinstance(self.members[f.attr], ast.FunctionDef) and self.depth < 3:
+            h = self.members[f.attr]
+            if any((isinstance(x, ast.Call) and pyfront.unparse(x.func) in ("self._assert",)) or
+                   (isinstance(x, ast.Attribute) and x.attr in ("_assert", "_check")) for x in ast.walk(h)) and \
+                    len(h.args.args) - 1 == len(call.args):
+                return h
+        return None
 
     def walk(self, stmts):
-        for st in stmts:
+        """returns True when the statement list ends in a return on every path"""
+        for k, st in enumerate(stmts):
+            if isinstance(st, ast.Return):
+                if st.value is not None:
+                    self.note_calls(st.value)
+                return True
             if isinstance(st, ast.Assign) and len(st.targets) == 1 and isinstance(st.targets[0], ast.Name):
                 if isinstance(st.value, ast.Call) and pyfront.unparse(st.value.func) in ("zip", "enumerate", "range"):
                     self.env[st.targets[0].id] = ("expr", st.value)
+                    continue
+                seq = self.val(st.value)
+                if seq is not None and not (len(seq.segs) == 1 and seq.segs[0] == ("rng", "data[@]", 0, 0)):
+                    self.env[st.targets[0].id] = seq
                     continue
                 v = self.c(st.value)
                 if v == "self._assert":
                     self.assert_names.add(st.targets[0].id)
                 self.env[st.targets[0].id] = v
                 continue
+            if isinstance(st, ast.Expr) and isinstance(st.value, ast.Call) and \
+                    isinstance(st.value.func, ast.Attribute) and st.value.func.attr == "append" and \
+                    isinstance(st.value.func.value, ast.Name) and \
+                    isinstance(self.env.get(st.value.func.value.id), Seq) and len(st.value.args) == 1:
+                nm = st.value.func.value.id
+                self.env[nm] = Seq(list(self.env[nm].segs) + [("one", self.c(st.value.args[0]))])
+                continue
+            if isinstance(st, ast.Expr) and isinstance(st.value, ast.Call) and self.helper(st.value) is not None:
+                h = self.helper(st.value)
+                saved, saved_names = self.env, set(self.assert_names)
+                new = {}
+                for p_, a in zip(h.args.args[1:], st.value.args):
+                    q = self.val(a)
+                    new[p_.arg] = q if q is not None else self.c(a)
+                self.env = new
+                self.depth += 1
+                self.walk(h.body)
+                self.depth -= 1
+                self.env, self.assert_names = saved, saved_names
+                continue
             if isinstance(st, ast.For):
-                saved = dict(self.env)
-                self.bind_loop(st.target, st.iter)
-                self.walk(st.body)
-                self.env = saved
+                for upd, pos in self.loop_cases(st):
+                    saved, saved_pos = dict(self.env), getattr(self, "pos", "any")
+                    self.env.update(upd)
+                    self.pos = pos if pos != "any" else saved_pos
+                    self.walk(st.body)
+                    self.env, self.pos = saved, saved_pos
                 continue
             if isinstance(st, ast.If):
+                d = self.decide(st.test)
+                if d is not None:
+                    if self.walk(st.body if d else st.orelse):
+                        return True
+                    continue
                 # the branches of the emptiness and child-kind tests are scopes; any
                 # other condition that looks at a value an assertion below it is about
                 # (`if nextbucket is not None: assert_(... is nextbucket)`) switches
-                # that assertion off for some values: it is recorded as weakened
+                # that assertion off for some values: it is recorded as weakened.  A
+                # branch that returns guards the rest of the list in the same way.
                 self.guards = getattr(self, "guards", []) + [self._terms(st.test)]
-                self.walk(st.body)
-                self.walk(st.orelse)
+                rb = self.walk(st.body)
+                ro = self.walk(st.orelse)
+                if rb or ro:
+                    r = self.walk(stmts[k + 1:])
+                    self.guards = self.guards[:-1]
+                    return (rb and ro) or r
                 self.guards = self.guards[:-1]
                 continue
-            for c in ast.walk(st):
-                if isinstance(c, ast.Call):
-                    fn = pyfront.unparse(c.func)
-                    if (fn in self.assert_names or self.env.get(fn) == "self._assert") and c.args:
-                        txt = self.c(c.args[0])
-                        mine = self._terms(c.args[0])
-                        shared = set()
-                        for g in getattr(self, "guards", []):
-                            shared |= (g & mine)
-                        if shared:
-                            txt = "%s or not asserted at all, depending on %s" % (txt, ", ".join(sorted(shared)))
-                        self.asserts.append((txt, c.lineno))
-                    elif isinstance(c.func, ast.Attribute) and c.func.attr == "_check":
-                        self.calls.append(self.c(c))
+            self.note_calls(st)
+        return False
 
 
 def py_atoms():
@@ -285,7 +527,7 @@ def py_atoms():
     fn = t.get("_check")
     if not isinstance(fn, ast.FunctionDef):
         raise AnalysisError("anchor vanished: _Tree._check")
-    cn = _Canon(fn)
+    cn = _Canon(fn, t)
     cn.walk(fn.body)
     atoms = []
     for text_, line in cn.asserts:
@@ -520,22 +762,76 @@ def check_py_module(res):
     walk = pyfront.class_members(wk).get("walk")
     if not isinstance(walk, ast.FunctionDef):
         raise AnalysisError("anchor vanished: Walker.walk")
-    loops = [f for f in ast.walk(walk) if isinstance(f, ast.For) and any(
-        isinstance(c, ast.Call) and pyfront.unparse(c.func) == "stack.append"
-        for b in f.body for c in ast.walk(b))]
+    modfuncs = pyfront.functions(tree)
+
+    def is_push(c):
+        """<list>.append((node, path, parent, lo', hi'))"""
+        return isinstance(c, ast.Call) and isinstance(c.func, ast.Attribute) and c.func.attr == "append" and \
+            isinstance(c.func.value, ast.Name) and len(c.args) == 1 and isinstance(c.args[0], ast.Tuple) and \
+            len(c.args[0].elts) == 5
+
+    def push_loops(fn):
+        return [f for f in ast.walk(fn) if isinstance(f, ast.For) and any(
+            is_push(c) for b in f.body for c in ast.walk(b))]
+    # the roles of walk's locals: (node, path, parent, lo, hi) popped from the
+    # stack, (kind, keys, kids) cracked from the node
+    roles = {}
+    for a in ast.walk(walk):
+        if isinstance(a, ast.Assign) and isinstance(a.targets[0], ast.Tuple) and isinstance(a.value, ast.Call) and \
+                all(isinstance(x, ast.Name) for x in a.targets[0].elts):
+            names = [x.id for x in a.targets[0].elts]
+            fnm = pyfront.unparse(a.value.func)
+            if fnm.endswith(".pop") and len(names) == 5:
+                roles[names[3]], roles[names[4]] = "lo", "hi"
+            elif fnm == "crack_btree" and len(names) == 3:
+                roles[names[1]], roles[names[2]] = "KEYS", "KIDS"
+    if sorted(roles.values()) != ["KEYS", "KIDS", "hi", "lo"]:
+        raise AnalysisError("unrecognised idiom: Walker.walk does not pop (node, path, parent, lo, hi) / "
+                            "crack_btree into (kind, keys, kids)")
+    loops = push_loops(walk)
+    loop_fn, loop_roles = walk, dict(roles)
+    if not loops:
+        # the child loop factored out into a function of the module: the roles
+        # of its parameters are those of the arguments at the call in walk
+        for c in ast.walk(walk):
+            if isinstance(c, ast.Call) and isinstance(c.func, ast.Name) and c.func.id in modfuncs and \
+                    push_loops(modfuncs[c.func.id]) and not c.keywords:
+                loop_fn = modfuncs[c.func.id]
+                loops = push_loops(loop_fn)
+                loop_roles = {}
+                for p2, a in zip([x.arg for x in loop_fn.args.args], c.args):
+                    if isinstance(a, ast.Name) and a.id in roles:
+                        loop_roles[p2] = roles[a.id]
+                break
     if len(loops) != 1:
         raise AnalysisError("unrecognised idiom: child loop of Walker.walk")
     body = loops[0].body
+    # names for the number of children (`n = len(kids)`, `last = len(kids) - 1`)
+    # assigned before the loop
+    len_alias = {}
+    for a in ast.walk(loop_fn):
+        if isinstance(a, ast.Assign) and len(a.targets) == 1 and isinstance(a.targets[0], ast.Name) and \
+                a.lineno < loops[0].lineno:
+            t = pyfront.unparse(a.value).replace(" ", "")
+            t = re.sub(r"len\((\w+)\)", lambda m: "n" if loop_roles.get(m.group(1)) == "KIDS" else (
+                "n-1" if loop_roles.get(m.group(1)) == "KEYS" else m.group(0)), t)
+            t = {"n-1-1": "n-2"}.get(t, t)
+            if t in ("n", "n-1"):
+                len_alias[a.targets[0].id] = t
     m = 0
     for first in (True, False):
         for last in (True, False):
             m += 1
-            env = {"lo": "lo", "hi": "hi", "keys": "KEYS", "kids": "KIDS", "i": "I"}
-            modfuncs = pyfront.functions(tree)
-            # the loop variable and the key / child lists, whatever they are called
+            env = dict(loop_roles)
+            # the loop variable, whatever it is called
             lt = loops[0].target
+            li = loops[0].iter
             if isinstance(lt, ast.Name):
                 env[lt.id] = "I"
+            elif isinstance(lt, ast.Tuple) and isinstance(li, ast.Call) and pyfront.unparse(li.func) == "enumerate" \
+                    and len(lt.elts) == 2 and all(isinstance(x, ast.Name) for x in lt.elts):
+                env[lt.elts[0].id] = "I"
+                env[lt.elts[1].id] = "KID"
 
             def idx_text(e):
                 t = pyfront.unparse(e).replace(" ", "")
@@ -579,6 +875,9 @@ def check_py_module(res):
             def test(t):
                 s = idx_text(t)
                 s = re.sub(r"len\((\w+)\)", lambda m: "n" if env.get(m.group(1)) in ("KIDS", "KEYS+1") else m.group(0), s)
+                for nm, al in len_alias.items():
+                    s = re.sub(r"\b%s\b" % re.escape(nm), al if al == "n" else "(%s)" % al, s)
+                s = s.replace("(n-1)-1", "n-2").replace("(n-1)", "n-1")
                 if s in ("i<n-1", "i!=n-1", "n-1>i"):
                     return not last
                 if s in ("i>0", "i!=0", "i", "0<i"):
@@ -602,8 +901,7 @@ def check_py_module(res):
                             env[tg.id] = val
                     elif isinstance(st, ast.If):
                         run(st.body if test(st.test) else st.orelse)
-                    elif isinstance(st, ast.Expr) and isinstance(st.value, ast.Call) and \
-                            pyfront.unparse(st.value.func) == "stack.append":
+                    elif isinstance(st, ast.Expr) and is_push(st.value):
                         tup = st.value.args[0]
                         pushed.append((ev(tup.elts[3]), ev(tup.elts[4])))
                     elif isinstance(st, ast.Expr) and isinstance(st.value, ast.Constant):
